@@ -130,13 +130,24 @@ impl Completions {
         }
 
         // Process the remaining completions events that are ready.
-        // NOTE: we explitly enter here to ensure we get the latests completions
-        // from the kernel, poll doesn't guarantee that.
-        if let Err(err) = shared.enter(1, libc::IORING_ENTER_GETEVENTS, Some(Duration::ZERO)) {
-            log::warn!("error getting last completions: {err}");
-        }
-        if let Err(err) = self.poll(shared, Some(Duration::ZERO)) {
-            log::warn!("error processing last completions: {err}");
+        // NOTE: if more completions are ready than fit in the completion queue
+        // the kernel keeps them in an overflow list (IORING_FEAT_NODROP) until
+        // we made space and enter the kernel again. So, we keep going until
+        // no more completions were processed.
+        loop {
+            // NOTE: we explitly enter here to ensure we get the latests
+            // completions from the kernel, poll doesn't guarantee that.
+            if let Err(err) = shared.enter(1, libc::IORING_ENTER_GETEVENTS, Some(Duration::ZERO)) {
+                log::warn!("error getting last completions: {err}");
+            }
+            let head = load_kernel_shared(self.entries_head);
+            if let Err(err) = self.poll(shared, Some(Duration::ZERO)) {
+                log::warn!("error processing last completions: {err}");
+                break;
+            }
+            if load_kernel_shared(self.entries_head) == head {
+                break; // No more completions to process.
+            }
         }
     }
 }
